@@ -8,7 +8,7 @@ from ..core import Failure
 from ..model import first_diff
 
 ID = "C04"
-BUDGET = {"quick": 700, "thorough": 2500}
+BUDGET = {"quick": 700, "thorough": 8000}
 TECHNIQUE = 'Hypothesis-generated operand tuples vs model equality + structural predicates + idempotence/aliasing snapshots'
 LEVEL_TEXT = 'Each of the four align functions is called on 1-4 generated operands (one third under non-default retain/sort options); results must be model-equal to the inputs, share shape/names/exponents/keys as applicable, be idempotent and leave the arguments byte-identical.'
 RULE = (
